@@ -36,12 +36,26 @@ variable {w : World} {hc : HCfg} {b Ks n : Nat} {rec : Rec} (cx : Ctx w hc b Ks 
 include cx g hv hd hs hk hok
 
 /-- types whose hook is `identity` whatever the argument -/
-theorem un_scalar_ref (t : Ty) (ht : t = .int ∨ t = .float ∨ t = .str ∨ t = .bytes ∨ t = .bool ∨ ∃ vs, t = .lit vs) :
+theorem un_scalar_ref (t : Ty) (ht : t = .int ∨ t = .float ∨ t = .str ∨ t = .bytes ∨ t = .bool) :
     Outcome b st (exec w n rec (planUn w hc n t v view) st) k (some (un w hc.cfg.core t o)) False := by
-  rcases ht with rfl | rfl | rfl | rfl | rfl | ⟨vs, rfl⟩ <;>
+  rcases ht with rfl | rfl | rfl | rfl | rfl <;>
     (cases hs with
      | leaf k o hl => leafcases o hl
      | _ => catchall)
+
+/-- `Literal[...]`: `identity`, or -- when the literal contains enum members -- `self.unstructure` -/
+theorem un_lit_ref (vs : List Obj) :
+    Outcome b st (exec w n rec (planUn w hc n (.lit vs) v view) st) k (some (un w hc.cfg.core (.lit vs) o)) False := by
+  have hp : planUn w hc n (.lit vs) v view = if litHasEnum vs then planUnAny w hc n v view else .ident v := by
+    simp only [planUn]
+  have hu : un w hc.cfg.core (.lit vs) o = if litHasEnum vs then unAny w hc.cfg.core o else o := by
+    rw [un]
+  rw [hp, hu]
+  cases litHasEnum vs with
+  | true => simp only [if_true]; exact unAny_ref cx g hv hd hs hk hok
+  | false =>
+    simp only [Bool.false_eq_true, if_false]
+    exact exec_ident_ref cx.hrec w n v st g hv k o hd False
 
 theorem un_enum_ref (e : Nat) :
     Outcome b st (exec w n rec (planUn w hc n (.enum e) v view) st) k (some (un w hc.cfg.core (.enum e) o)) False := by
